@@ -323,6 +323,12 @@ def node_specs(tier):
             specs.append({'kind': 'gen', 'shape': shape, 'cfg': {}, 'start': True, 'label': f"{shape['name']}/started"})
     # a node whose module under test is itself unexported (and a visible neighbour)
     specs.append({'kind': 'gen', 'shape': G.shapes(tier)[1], 'cfg': {'export': False}, 'label': 'GB/unexported'})
+    # ... and one whose cfg carries per-accessible export entries (True, custom name, False) for parameters and commands:
+    # nothing of a module that is not exported may become reachable through them
+    specs.append({'kind': 'gen', 'shape': G.shapes(tier)[1], 'label': 'GB/unexported-with-export-entries',
+                  'cfg': {'export': False, 'hid': {'export': True}, 's': {'export': 'sx'}, 'e': {'export': True},
+                          'cus': {'export': False}, 'cmd0': {'export': 'cx'}, 'cmdhid': {'export': True},
+                          'cmdleaf': {'export': True}}})
     shipped = ['demo_cfg.py', 'sim_cfg.py', 'test_cfg.py']
     if tier == 'thorough':
         shipped = sorted(f for f in os.listdir(os.path.join(core.REPO, 'cfg')) if f.endswith('_cfg.py'))
@@ -387,7 +393,7 @@ class NodeUnderTest:
             cls = G.make_class(shape)
             hidden = G.HIDDEN_SHAPE if not spec.get('start') else dict(G.HIDDEN_SHAPE, name='GHN', nopoll=True)
             modcfg = {MOD: dict({'cls': cls}, **json.loads(json.dumps(spec['cfg']))),
-                      'hm': {'cls': G.make_class(hidden), 'export': False},
+                      'hm': dict(json.loads(json.dumps(G.HIDDEN_CFG)), cls=G.make_class(hidden)),
                       'vis': {'cls': G.make_class(hidden)}}
             self.ref = G.reference(shape)
             try:
@@ -433,7 +439,7 @@ def gen_reference(spec):
     """what a correct description of the generated node must contain: module -> {wire: info}"""
     out = {}
     for modname, shape, cfg in ((MOD, spec['shape'], spec['cfg']), ('vis', G.HIDDEN_SHAPE, {}),
-                                ('hm', G.HIDDEN_SHAPE, {'export': False})):
+                                ('hm', G.HIDDEN_SHAPE, G.HIDDEN_CFG)):
         ref = G.reference(shape)
         exported = cfg.get('export', True) is not False
         accs = {}
@@ -963,6 +969,10 @@ class Checker:
             names = set()
             for attr in mod.accessibles:
                 names.update((attr, '_' + attr))
+            # custom wire names given in the configuration
+            for attr, entry in self.nut.modcfg.get(m, {}).items():
+                if isinstance(entry, dict) and isinstance(entry.get('export'), str):
+                    names.add(entry['export'])
             if self.kind == 'gen':
                 ref = gen_reference(self.spec).get(m)
                 if ref:
@@ -1009,7 +1019,7 @@ class Checker:
                 if action == 'activate':
                     # a later change of the value must not reach the connection that tried to subscribe
                     attr = name if name in mod.parameters else (name[1:] if name and name[1:] in mod.parameters else None)
-                    pnames = [attr] if attr else list(mod.parameters)[:3] if name is None else []
+                    pnames = [attr] if attr else list(mod.parameters) if name is None else []
                     for pn in pnames:
                         pobj = mod.parameters[pn]
                         if pobj.constant is not None:
@@ -1020,9 +1030,8 @@ class Checker:
                             mod.announceUpdate(pn, err=RuntimeError('probe'))
                         except Exception:
                             pass
-                        got = [g for g in self.c1.take() if g[1].split(':')[0] == m and
+                        got = [g for g in self.c1.take() + self.c2.take() if g[1].split(':')[0] == m and
                                (m not in desc['modules'] or g[1].split(':')[-1] not in described)]
-                        self.c2.take()
                         if got:
                             if 'later-update' not in reachable:
                                 reachable.append('later-update')
